@@ -1428,7 +1428,12 @@ impl<'t, 'a> Gen<'t, 'a> {
     fn reserved_plant(&mut self, d: usize) -> String {
         let prefix = self.o.reserved_prefix.clone().unwrap_or_else(|| "test".into());
         let k = self.t.below(3);
-        let real = format!("__datadog_{prefix}_{k}");
+        let mut real = format!("__datadog_{prefix}_{k}");
+        if self.t.chance(50) {
+            // the same name spelled with a unicode escape (the text of the file does not contain the prefix then)
+            self.tag("reserved:unicode-escape-spelling");
+            real = if self.t.flag() { format!("\\u005f_datadog_{prefix}_{k}") } else { format!("_\\u{{5f}}datadog_{prefix}_{k}") };
+        }
         let e = self.expr(d.min(2));
         let et = Self::arg_text(&e);
         let e2 = self.plus(d.min(2));
@@ -1581,7 +1586,9 @@ impl<'t, 'a> Gen<'t, 'a> {
             2 => {
                 self.tag("directive");
                 self.tag("multi-directive");
-                "'use foo';\n\"use strict\";\n".into()
+                // directives that mean something to some engine or tool come first, strictness follows
+                let first = *self.t.pick(&["'use foo'", "'use asm'", "\"use client\"", "'use\\x20strict'"]);
+                format!("{first};\n\"use strict\";\n")
             }
             3 => {
                 self.tag("directive");
